@@ -497,3 +497,106 @@ def h_key_identity(spelling: int, alt_first: bool) -> bool:
     if 2 not in seqs:
         return "the genuine newest announcement was not delivered"
     return True
+
+
+# ---- correctly signed announcements with malformed CONTENT ------------------------------------------------------------
+# (any key holder can sign these; verify_signature succeeds when the position's symbolic bit says so)
+
+C_LIST, C_NOSVC, C_NICK, C_FURLINT, C_FURLSTR, C_SEQ = 11, 12, 13, 14, 15, 16
+CONTENT_KINDS = (KIND_OK, C_LIST, C_NOSVC, C_NICK, C_FURLINT, C_FURLSTR, C_SEQ)
+
+
+def _content_msgs(i, kind):
+    """the signed message(s) that position i contributes (C_SEQ: two announcements from the same key, in this order)"""
+    base = {"service-name": "storage", "anonymous-storage-FURL": FURL, "nickname": "nick-%d" % i, "nonce": "n%d" % i, "seqnum": 1}
+    if kind == KIND_OK:
+        return [_msg(i, 1)]
+    if kind == C_LIST:
+        return [_json.dumps([1, 2, i]).encode("utf-8")]                     # body is not a dict
+    if kind == C_NOSVC:
+        d = dict(base)
+        del d["service-name"]
+        return [_json.dumps(d).encode("utf-8")]
+    if kind == C_NICK:
+        return [_json.dumps(dict(base, nickname=5)).encode("utf-8")]
+    if kind == C_FURLINT:
+        d = dict(base)
+        d["anonymous-storage-FURL"] = 7
+        return [_json.dumps(d).encode("utf-8")]
+    if kind == C_FURLSTR:
+        d = dict(base)
+        d["anonymous-storage-FURL"] = "x"
+        return [_json.dumps(d).encode("utf-8")]
+    if kind == C_SEQ:
+        return [_json.dumps(dict(base, seqnum="x", nonce="first-%d" % i)).encode("utf-8"),
+                _json.dumps(dict(base, seqnum=2, nonce="second-%d" % i)).encode("utf-8")]
+    raise hlib.HarnessError("kind %r" % (kind,))
+
+
+_CONTENT = dict(((i, k), _content_msgs(i, k)) for i in range(3) for k in CONTENT_KINDS)      # concrete, built at import time
+_BODIES = dict((key, [_json.loads(m.decode("utf-8")) for m in msgs]) for key, msgs in _CONTENT.items())
+_SIGS = [b"v0-" + base32.b2a(bytes([48 + i]) * 64) for i in range(3)]
+
+
+def h_batch_signed_content(k0: int, k1: int, k2: int, v0: bool, v1: bool, v2: bool) -> bool:
+    """
+    pre: 0 <= k0 < len(CONTENT_KINDS) and 0 <= k1 < len(CONTENT_KINDS) and 0 <= k2 < len(CONTENT_KINDS)
+    pre: B.get("kinds") is None or (k0 in B["kinds"] and k1 in B["kinds"] and k2 in B["kinds"])
+    post: _ == True
+    """
+    # k0..k2 index CONTENT_KINDS: 0 good, 1 list body, 2 no service-name, 3 nickname 5, 4 FURL 7, 5 FURL "x", 6 seqnum "x" then 2
+    kinds = [CONTENT_KINDS[k0], CONTENT_KINDS[k1], CONTENT_KINDS[k2]]
+    valids = [v0, v1, v2]
+    c = _mk_client(True)
+    batch = []
+    owner = {}
+    for i in range(3):
+        for m in _CONTENT[(i, kinds[i])]:
+            owner[m] = i
+            batch.append((m, _SIGS[i], _KEYS[i]))
+    ideal = _IdealEd25519(lambda m, k, s: valids[owner[m]])
+    saved = common_mod.ed25519
+    common_mod.ed25519 = ideal
+    exc = None
+    try:
+        try:
+            _got(c, batch)
+        except Exception as e:       # what the remote caller (the introducer) would get back as an error
+            exc = e
+    finally:
+        common_mod.ed25519 = saved
+    verified = [call[2] for call in ideal.calls if call[3]]
+    for i in range(3):
+        got = [d[1] for d in c.delivered if d[0] == _KEYS[i]]
+        ent = c._inbound_announcements.get(("storage", _KEYS[i]))
+        msgs = _CONTENT[(i, kinds[i])]
+        bodies = _BODIES[(i, kinds[i])]
+        if kinds[i] == KIND_OK and valids[i]:
+            if got != bodies:
+                if exc is not None:
+                    return "a correctly signed but malformed announcement (%s) stopped a good one from another key in the same batch" % (type(exc).__name__,)
+                return "a good announcement was not delivered exactly once"
+            if ent is None or ent[0] != bodies[0] or ent[1] != _KEYS[i]:
+                return "good announcement not stored under its signing key"
+            continue
+        if not valids[i] or kinds[i] in (C_LIST, C_NOSVC):
+            # forged, or something that is not an announcement for any service: nothing may come of it
+            if got or ent is not None:
+                return "a forged announcement / a signed non-announcement was delivered or stored"
+            continue
+        # a signed dict for our service with odd fields: the client may accept or skip it, but only as what was signed
+        pos = 0
+        for body in got:
+            while pos < len(bodies) and bodies[pos] != body:
+                pos += 1
+            if pos == len(bodies):
+                return "something was delivered for a key that this key did not sign (or out of order / twice)"
+            if msgs[pos] not in verified:
+                return "delivered without a successful signature check"
+            pos += 1
+        if (ent is None) != (len(got) == 0) or (ent is not None and (ent[0] != got[-1] or ent[1] != _KEYS[i])):
+            return "stored entry and deliveries disagree for a key"
+    for d in c.delivered:
+        if d[0] not in _KEYS:
+            return "delivery attributed to an unknown key"
+    return True
